@@ -15,7 +15,8 @@ Regenerates <coq/gen>/DigestLayouts.v from the current source of <repo>:
 
 The extraction is purely syntactic and strict: every statement of the digest functions must be
 recognised, otherwise the script prints what it does not understand and exits non-zero WITHOUT
-writing the output file (it never keeps an old table silently: it removes a stale one).
+writing the output file (the check then reports the tie as broken; the previous table stays on disk,
+announced as stale, only so that the harness' cases can still be evaluated and searched).
 """
 import os, re, sys
 
@@ -252,9 +253,12 @@ def main():
     try:
         text = build(repo)
     except Refuse as e:
-        if os.path.exists(outp):
-            os.remove(outp)
+        # the table is NOT regenerated and the run is reported as a broken tie (exit 1). The last
+        # generated table is left in place for one purpose only: the harness cases can still be
+        # evaluated against it, so that the search can turn the change into a concrete failing input.
         print("extract_digest: REFUSED: %s" % e)
+        if os.path.exists(outp):
+            print("extract_digest: %s is STALE (last table kept for the search only)" % outp)
         return 1
     os.makedirs(gen, exist_ok=True)
     if not os.path.exists(outp) or open(outp).read() != text:
